@@ -108,3 +108,30 @@ fn f35_no_cache_object_followed_by_its_own_parity_packets() {
     let failed = objs.iter().filter(|o| o.borrow().error).count();
     assert_eq!((objs.len(), complete, failed), (1, 1, 0), "(writers created, complete, in error)");
 }
+
+// ---- F36 (C01, known finding): publish mode ObjectsBeingTransferred + max_transfer_count 2 + another object transferred in between:
+// the FDT instance published when the other object starts does not list the first object any more, the receiver's
+// gc_object_completed forgets it, and its second transfer is delivered a second time although receive-once is enabled --------------
+#[test]
+fn f36_receive_once_forgotten_between_two_transfers() {
+    let oti = flute::core::Oti::new_no_code(64, 4);
+    let mut cfg: flute::sender::Config = Default::default();
+    cfg.fdt_publish_mode = flute::sender::FDTPublishMode::ObjectsBeingTransferred;
+    cfg.priority_queues.insert(0, flute::sender::PriorityQueue::new(1));
+    let mut s = sender_with(&oti, &cfg);
+    let a: Vec<u8> = (0..1000u32).map(|i| (i % 251) as u8).collect();
+    let b: Vec<u8> = (0..700u32).map(|i| (i % 13) as u8).collect();
+    let twice = flute::sender::TransferConfig { max_transfer_count: 2, ..Default::default() };
+    s.add_object(0, obj(a.clone(), "file:///a", twice)).unwrap();
+    s.add_object(0, obj(b.clone(), "file:///b", Default::default())).unwrap();
+    let now = SystemTime::now();
+    s.publish(now).unwrap();
+    let (mut r, w) = receiver();
+    for p in all_packets(&mut s, now) {
+        r.push(&endpoint(), &p, now).unwrap();
+    }
+    let objs = w.objects.borrow();
+    let copies_a = objs.iter().filter(|o| o.borrow().complete && o.borrow().data == a).count();
+    let copies_b = objs.iter().filter(|o| o.borrow().complete && o.borrow().data == b).count();
+    assert_eq!((copies_a, copies_b), (1, 1), "(complete copies of a, of b) with receive-once enabled");
+}
